@@ -7,7 +7,7 @@ CONF = dict(
     compare=['ser', 'txid', 'wtxid', 'hasw', 'sha', 'dsha', 'mid'],
     trusted=['modelled by hand: TxHash, WitnessHash, HasWitness, serialize; SHA-256 is executable Gallina (Lib/Sha256.v), collision freedom enters only as a hypothesis (injective H) of the digest theorems'],
     assumptions=['ideal hash: the two digest-level sensitivity theorems take an injective H as hypothesis; frame theorems and serialization-level sensitivity need none'],
-    explanation='theorems: witness-only changes leave the hashed serialization unchanged; equal hashed serializations force equal covered fields (codec injectivity); wtxid = txid without witness data. K: bit-exact txid/wtxid (executable SHA-256). S: the whole single-field perturbation matrix on the implementation.',
+    explanation='theorems: witness-only changes leave the hashed serialization unchanged; equal hashed serializations force equal covered fields (codec injectivity); wtxid = txid without witness data; the same per named field and list position (Proofs/TxIdFields.v). K: bit-exact txid/wtxid (executable SHA-256). S: the whole single-field perturbation matrix on the implementation.',
 )
 
 TEXT = dict(
